@@ -329,11 +329,43 @@ def main(ctx):
     GY = [round(rng.uniform(-20.0, 20.0), 3) for _ in range(12)]
     ctx.notes.append("generic weights (seed %d): %r; generic second variable: %r" % (ctx.seed, GW, GY))
 
+    def layout(a, lay):
+        """the same values in another memory layout (applied to x, weights and y alike)"""
+        if lay == "strided":
+            big = np.full(a.size * 3 + 1, 55.5, dtype=a.dtype)
+            big[1::3] = a
+            return big[1::3]
+        if lay == "neg":
+            big = np.full(a.size * 2, 55.5, dtype=a.dtype)
+            big[::2] = a[::-1]
+            return big[::2][::-1]
+        if lay == "field":
+            r = np.zeros(a.size, dtype=[("pad", "i2"), ("x", a.dtype), ("tail", "S3")])
+            r["x"] = a
+            return r["x"]
+        if lay == "col":
+            m = np.full((a.size, 3), 55.5, dtype=a.dtype)
+            m[:, 1] = a
+            return m[:, 1]
+        if lay == "swapped":
+            return a.astype(a.dtype.newbyteorder("S"))
+        if lay == "f4":
+            return a.astype("f4")
+        if lay == "list":
+            return a.tolist()
+        raise ValueError(lay)
+
     def arrays(dt, data, w, y):
-        arr = np.array(data, dtype=dt)
+        base, _, lay = dt.partition(":")
+        arr = np.array(data, dtype=base)
         warr = None if w is None else np.array(w, dtype="f8")
         yarr = None if y is None else np.array(y, dtype="f8")
-        return arr, warr, yarr, arr.astype("f8").tolist()
+        x = arr.astype("f8").tolist()
+        if lay:
+            arr = layout(arr, lay)
+            warr = None if warr is None else layout(warr, lay)
+            yarr = None if yarr is None else layout(yarr, lay)
+        return arr, warr, yarr, x
 
     # ------------------------------------------------------------ part: stats
     def run_entry(entry, arr, warr, yarr, kw):
@@ -459,6 +491,23 @@ def main(ctx):
                 bounds=dict(max_len_f8=L, max_len_i8=LI, alphabet=V, int_alphabet=VI,
                             binning=BINNING, mins=MINS, maxs=MAXS, weights=W, second=Y,
                             secondary_entries_max_len=L - 1))
+
+    # memory layouts of x, weights and y (same values; the reference sees the values only)
+    C14_LAYOUTS = ["f8:strided", "f8:neg", "f8:field", "f8:col", "f8:swapped", "f8:list"]
+    LDATA = [(0.0, 0.5, 1.0, 1.5, 2.0, 3.7, 1.0, 3.0), (3.0, 1.0, 2.0, 2.0), (1.0,)]
+    lunits = [(lay, bk, bv) for lay in C14_LAYOUTS for (bk, bv) in BINNING]
+
+    def expand_lay(u):
+        lay, bkind, bval = u
+        for data in LDATA:
+            n = len(data)
+            for mn, mx in ((None, None), (0.5, None), (None, 2.0)):
+                for (w, y, entry, eng) in ((None, None, "hist-more", True), (wcyc(n, 1), None, "hist-weights", True),
+                                           (wcyc(n, 1), ycyc(n), "binner", True), (wcyc(n, 0), ycyc(n), "binner", False),
+                                           (None, ycyc(n), "binner-split", True)):
+                    yield (lay, data, w, y, bkind, bval, mn, mx, entry, eng)
+
+    ctx.lattice("input-layouts", lunits, one, expand=expand_lay, bounds=dict(layouts=C14_LAYOUTS, data=[list(d) for d in LDATA]))
 
     # ---------------------------------------------------------- part: nperbin
     def one_nper(case, rec):
